@@ -111,10 +111,51 @@ func miscOp(f []string) (string, bool) {
 			return "ok r=" + joinInts(utils.NewMonominalPoly(gf, atoi(f[5]), atoi(f[6])).Coefficients), true
 		case "mulmono": // p.MultByMonominal(degree, coefficient), q = "degree,coefficient"
 			dc := ints(f[6])
-			return "ok r=" + joinInts(utils.NewGFPoly(gf, ints(f[5])).MultByMonominal(dc[0], dc[1]).Coefficients), true
+			d := ints(f[5])
+			buf := make([]int, len(d)+64)
+			for i := range buf {
+				buf[i] = -0x5a5a5a
+			}
+			copy(buf, d)
+			r := utils.NewGFPoly(gf, buf[:len(d)]).MultByMonominal(dc[0], dc[1])
+			g := " guard=1"
+			for i, x := range buf {
+				if (i < len(d) && x != d[i]) || (i >= len(d) && x != -0x5a5a5a) {
+					g = " guard=0"
+				}
+			}
+			return "ok r=" + joinInts(r.Coefficients) + g, true
 		}
-		p := utils.NewGFPoly(gf, ints(f[5]))
-		q := utils.NewGFPoly(gf, ints(f[6]))
+		// operands are windows into larger sentinel-filled buffers: no operation may write outside (or inside) them
+		const sentinel = -0x5a5a5a
+		var bufs [][]int
+		var origs [][]int
+		window := func(d []int) []int {
+			buf := make([]int, 4+len(d)+64)
+			for i := range buf {
+				buf[i] = sentinel
+			}
+			copy(buf[4:], d)
+			bufs = append(bufs, buf)
+			origs = append(origs, append([]int(nil), d...))
+			return buf[4 : 4+len(d)]
+		}
+		guardOf := func() string {
+			for k, buf := range bufs {
+				for i, x := range buf {
+					if i >= 4 && i < 4+len(origs[k]) {
+						if x != origs[k][i-4] {
+							return " guard=0"
+						}
+					} else if x != sentinel {
+						return " guard=0"
+					}
+				}
+			}
+			return " guard=1"
+		}
+		p := utils.NewGFPoly(gf, window(ints(f[5])))
+		q := utils.NewGFPoly(gf, window(ints(f[6])))
 		// the accessors of the result are part of the observation: Degree, Zero, GetCoefficient(0 and Degree)
 		acc := func(r *utils.GFPoly) string {
 			z := 0
@@ -126,24 +167,44 @@ func miscOp(f []string) (string, bool) {
 		switch f[4] {
 		case "add":
 			r := p.AddOrSubstract(q)
-			return "ok r=" + joinInts(r.Coefficients) + acc(r), true
+			return "ok r=" + joinInts(r.Coefficients) + acc(r) + guardOf(), true
 		case "mul":
 			r := p.Multiply(q)
-			return "ok r=" + joinInts(r.Coefficients) + acc(r), true
+			return "ok r=" + joinInts(r.Coefficients) + acc(r) + guardOf(), true
 		case "div":
 			quo, rem := p.Divide(q)
-			return "ok q=" + joinInts(quo.Coefficients) + " r=" + joinInts(rem.Coefficients) + acc(rem), true
+			return "ok q=" + joinInts(quo.Coefficients) + " r=" + joinInts(rem.Coefficients) + acc(rem) + guardOf(), true
 		}
 	case "rs":
 		// rs <pp> <size> <base> <k1>:<data1>;<k2>:<data2>;…   one shared encoder, calls in order
 		gf := utils.NewGaloisField(atoi(f[1]), atoi(f[2]), atoi(f[3]))
 		enc := utils.NewReedSolomonEncoder(gf)
+		// every call gets a window into one larger buffer (the way a caller keeps several blocks back to back): sentinels
+		// before and after the window, spare capacity behind it; afterwards the window and the sentinels must be unchanged
 		var outs []string
+		guard := 1
+		const sentinel = -0x5a5a5a
 		for _, call := range strings.Split(f[4], ";") {
 			kv := strings.SplitN(call, ":", 2)
-			outs = append(outs, joinInts(enc.Encode(ints(kv[1]), atoi(kv[0]))))
+			d := ints(kv[1])
+			buf := make([]int, 8+len(d)+700)
+			for i := range buf {
+				buf[i] = sentinel
+			}
+			copy(buf[8:], d)
+			res := enc.Encode(buf[8:8+len(d)], atoi(kv[0]))
+			outs = append(outs, joinInts(res))
+			for i, x := range buf {
+				if i >= 8 && i < 8+len(d) {
+					if x != d[i-8] {
+						guard = 0
+					}
+				} else if x != sentinel {
+					guard = 0
+				}
+			}
 		}
-		return "ok r=" + strings.Join(outs, ";"), true
+		return "ok r=" + strings.Join(outs, ";") + " guard=" + strconv.Itoa(guard), true
 	}
 	return "", false
 }
